@@ -63,6 +63,12 @@ def gen_atom(rng, pool):
         return ('request.target.port %s %d' % (o, p), lambda c, p=p, f=f: f(c.d["request.target.port"], p))
     if k == 5:
         pat, rx = rng.choice([("\\\\.example\\\\.sim$", r"\.example\.sim$"), ("^o[0-9]+", r"^o[0-9]+"), ("corp", r"corp"), ("^10\\\\.", r"^10\."), ("[a-f0-9]*:[a-f0-9:]+", r"[a-f0-9]*:[a-f0-9:]+"), ("^$", r"^$")])
+        if rng.random() < 0.4:
+            # anchors around plain text taken from a host of this plan ("^corp", "sim$", "^10"): nothing in them needs escaping
+            h = rng.choice(pool["tgt_hosts"])
+            parts = [x for x in re.split(r"[^A-Za-z0-9-]+", h) if x]
+            if parts:
+                pat = rx = rng.choice(["^" + parts[0], parts[-1] + "$", "^" + parts[0][:2], parts[-1][-1:] + "$"] + (["^" + h + "$"] if len(parts) == 1 else []))
         neg = rng.random() < 0.3
         return ('request.target.host %s "%s"' % ("!~" if neg else "=~", pat), lambda c, rx=rx, neg=neg: (re.search(rx, c.d["request.target.host"]) is not None) != neg)
     if k == 6:
